@@ -69,6 +69,40 @@ pub fn opt_docs(g: &Grammar, count: usize) -> Vec<CDoc> {
     out
 }
 
+/// repeatable named sub-blocks whose name need not be unique: an INSTANCE has one OVERWRITE per axis of a component, all of them
+/// carry the component's name and differ in the axis number. Three blocks of one name, and two names interleaved.
+pub fn same_name_docs(g: &Grammar) -> Vec<CDoc> {
+    let mut gen = Gen::new(g);
+    let mut out = Vec::new();
+    for (ptag, ctag) in [("INSTANCE", "OVERWRITE")] {
+        if !gen.path.contains_key(ptag) {
+            continue;
+        }
+        for (label, names) in [("same name x3", vec!["ov", "ov", "ov"]), ("two names interleaved", vec!["ov", "pw", "ov", "pw"]), ("same name, another one first", vec!["pw", "ov", "ov"])] {
+            let chain = gen.path[ptag].clone();
+            let v = gen.version_for(&chain, &[(ptag.to_string(), ctag.to_string())]);
+            let (mut doc, path) = gen.carrier_v(ptag, v, 1);
+            doc.root.at_mut(&path).children.retain(|c| c.tag != ctag);
+            for (k, n) in names.iter().enumerate() {
+                let mut child = gen.min_node(ctag, v, 1);
+                child.params[0].text = n.to_string();
+                child.params[1].text = format!("{}", k + 1);
+                // every optional sub-element of the block once, so that the blocks differ in more than the number
+                let e = g.elem(ctag).clone();
+                for r in &e.refs {
+                    if r.in_version(v) && child.child(&r.tag).is_none() && (k + r.tag.len()) % 2 == 0 {
+                        let c = gen.min_node(&r.tag, v, 1);
+                        child.children.push(c);
+                    }
+                }
+                doc.root.at_mut(&path).children.push(child);
+            }
+            out.push(CDoc { label: format!("same-name({ptag},{ctag}: {label})"), doc, path, deviations: 0 });
+        }
+    }
+    out
+}
+
 /// all pairs of optional children inside one block
 pub fn opt_pair_docs(g: &Grammar, only_parents: Option<&[&str]>) -> Vec<CDoc> {
     let mut gen = Gen::new(g);
